@@ -19,5 +19,9 @@ var Harnesses = map[string]func(){
 	"cont.H_Dispose":          cont.H_Dispose,
 	"cont.H_Closed":           cont.H_Closed,
 	"cont.H_Conc":             cont.H_Conc,
+	"cont.H_Release":          cont.H_Release,
+	"cont.H_Misuse":           cont.H_Misuse,
+	"cont.H_Faults":           cont.H_Faults,
+	"cont.H_ReleaseChild":     cont.H_ReleaseChild,
 	"cont.H_CloseInCallback":  cont.H_CloseInCallback,
 }
